@@ -1,12 +1,1099 @@
-//! C25 — monitor not built yet (stub so that the registry is complete).
+//! C25 — log collection delivers every message sent before collection.
+//!
+//! Monitor shape: *history recorded at the client boundary + offline checker*.
+//! A random plan (2..=6 sender threads, 1..=30 messages each, pauses between the sends, a
+//! collection mode) is executed against the real `LogThread` (`spawn`, `get_msg_sender`,
+//! `collect`, collector `LogThread::collect_and_deduplicate`). Every sender stamps start and end of
+//! each `send` from ONE atomic counter per history, the collecting side stamps the collect request
+//! (before calling `collect`) and its return. The checker `check_history` then decides the recorded
+//! history using only the property statement and the documentation of `log.rs`:
+//!
+//! * no phantoms / alterations / duplicates: every returned message equals a sent one, at most once;
+//!   a message whose `send` reported failure, or whose send started after `collect` returned, is never returned;
+//! * delivery: every address-less log whose send completed before the collect request is returned;
+//!   a send that completed before the collect request never reports failure;
+//! * order: returned address-less logs keep real-time order (`end(m1) < start(m2)` => m1 before m2;
+//!   this includes each sender's own order);
+//! * deduplication (documented for `collect_and_deduplicate`: same address of origin => only the last
+//!   message received is kept; first address of a CWE warning): per address at most one message is
+//!   kept, exactly one if some send for the address completed before the collect request, and the kept
+//!   message k is a possible last one: no other message m' for the address with
+//!   `end(k) < start(m')` and `end(m') < request`.
+//!
+//! The relative order of addressed messages / warnings in the output is not documented and therefore
+//! only observed (histogram `output-order:*`), never judged.
+//!
+//! A second collector (`plain`: keep everything until `Terminate`) written here exercises
+//! `spawn`/`collect` without deduplication; there every message kind must be delivered and ordered.
+//!
+//! `bin/logmon.rs c25 <histories> <seed>` runs the same generator + checker with small parameters so
+//! that it can be executed under Miri (data races / UB in the channel, many more schedules); the
+//! thorough tier runs it as a subprocess.
+
 use crate::core::*;
+use crate::prng::{mix, Rng};
+use cwe_checker_lib::intermediate_representation::Tid;
+use cwe_checker_lib::utils::log::{CweWarning, LogLevel, LogMessage, LogThread, LogThreadMsg};
+use serde::{Deserialize, Serialize};
+use serde_json::{json, Value};
+use std::collections::{BTreeMap, HashSet};
+use std::sync::atomic::{AtomicU64, Ordering};
+use std::sync::{Arc, Barrier, Mutex};
+use std::time::Duration;
 
 pub fn info() -> CheckInfo {
     CheckInfo {
         id: "C25",
-        rule: "(monitor not built yet)",
-        assumptions: &[],
-        run: |_cfg| Report::new(),
-        replay: |_cfg, _case| Report::new(),
+        rule: "one evaluation = one executed history (plan of 2..=6 sender threads x 1..=30 messages + optional messages of the collecting thread, executed against the real LogThread with collect() racing with or following the senders) judged by the offline checker; each plan is executed twice. non-trivial = at least two messages were returned and (collect raced with at least one send, or address-less logs of different senders are interleaved in the output); distinct = hash of (plan, returned message order). extra: histories, messages sent/returned, distinct output orders (sequence of sender indices of the returned logs and warnings), distinct stamp interleavings (sequence of sender indices of all send stamps and the collect request in clock order)",
+        assumptions: &[
+            "a send 'completed before collection was requested' iff its end stamp precedes the stamp taken immediately before LogThread::collect is called (one SeqCst counter per history)",
+            "m1 definitely precedes m2 iff end(m1) < start(m2); concurrent sends may be received in either order",
+            "deduplication is judged as documented at collect_and_deduplicate: logs by location address, CWE warnings by their first address; CWE warnings always carry at least one address (the collector panics by contract otherwise)",
+            "the order of addressed logs and of warnings in the output is undocumented and not judged",
+            "a collect() that does not return within 30 s (native) is reported as a hang",
+            "Miri (thorough tier only): unavailable / build failure / timeout is inconclusive, not a verdict; leaks are ignored (-Zmiri-ignore-leaks)",
+        ],
+        run,
+        replay,
+    }
+}
+
+// ---------------------------------------------------------------------------
+// Plans
+
+pub const ADDRS: [&str; 3] = ["00401000", "00402000", "UNKNOWN"];
+
+#[derive(Clone, Debug, PartialEq, Eq, Serialize, Deserialize)]
+pub enum Pause {
+    None,
+    Yield(u32),
+    Spin(u32),
+    SleepUs(u32),
+}
+
+#[derive(Clone, Debug, PartialEq, Eq, Serialize, Deserialize)]
+pub enum MKind {
+    /// log message without location
+    General,
+    /// log message located at `ADDRS[i]`
+    LogAt(usize),
+    /// CWE warning whose first address is `ADDRS[i]`, `extra` selects further addresses
+    Cwe(usize, u8),
+}
+
+#[derive(Clone, Debug, PartialEq, Eq, Serialize, Deserialize)]
+pub struct MsgPlan {
+    pub kind: MKind,
+    pub pause: Pause,
+    pub variant: u8,
+}
+
+#[derive(Clone, Debug, PartialEq, Eq, Serialize, Deserialize)]
+pub enum Mode {
+    /// all senders are joined before collect()
+    AfterJoin,
+    /// collect() after these pauses, senders still running
+    Concurrent(Vec<Pause>),
+    /// the first k senders are joined, the others still run
+    AfterSome(usize),
+}
+
+#[derive(Clone, Copy, Debug, PartialEq, Eq, Serialize, Deserialize)]
+pub enum Collector {
+    /// `LogThread::collect_and_deduplicate`
+    Dedup,
+    /// keep everything until Terminate (defined in this file)
+    Plain,
+}
+
+#[derive(Clone, Debug, PartialEq, Eq, Serialize, Deserialize)]
+pub struct Plan {
+    pub threads: Vec<Vec<MsgPlan>>,
+    /// messages sent by the collecting thread itself right before collect() (sender index = threads.len())
+    pub main_msgs: Vec<MsgPlan>,
+    pub mode: Mode,
+    pub collector: Collector,
+    /// true: the sender is a clone of a clone of the LogThread's sender
+    pub cloned_twice: Vec<bool>,
+}
+
+#[derive(Clone, Copy, Debug)]
+pub struct Params {
+    pub min_threads: usize,
+    pub max_threads: usize,
+    pub max_msgs: usize,
+    pub max_spin: u32,
+    pub max_sleep_us: u32,
+    pub max_main_msgs: usize,
+}
+
+pub const NATIVE: Params = Params { min_threads: 2, max_threads: 6, max_msgs: 30, max_spin: 4000, max_sleep_us: 400, max_main_msgs: 3 };
+pub const MIRI: Params = Params { min_threads: 2, max_threads: 3, max_msgs: 4, max_spin: 6, max_sleep_us: 20, max_main_msgs: 2 };
+
+fn random_pause(rng: &mut Rng, p: &Params) -> Pause {
+    match rng.below(20) {
+        0..=8 => Pause::None,
+        9..=12 => Pause::Yield(1 + rng.below(3) as u32),
+        13..=17 => Pause::Spin(1 + rng.below(p.max_spin as u64) as u32),
+        _ => Pause::SleepUs(1 + rng.below(p.max_sleep_us as u64) as u32),
+    }
+}
+
+fn random_msg(rng: &mut Rng, p: &Params, profile: u64) -> MsgPlan {
+    // profile 0: mixed, 1: mostly address-less, 2: mostly addressed (few addresses => many overwrites)
+    let r = rng.below(12);
+    let kind = match (profile, r) {
+        (1, 0..=8) | (0, 0..=4) | (2, 0..=1) => MKind::General,
+        (_, x) if x % 2 == 0 => MKind::LogAt(rng.usize_below(3)),
+        _ => MKind::Cwe(rng.usize_below(3), rng.below(3) as u8),
+    };
+    MsgPlan { kind, pause: random_pause(rng, p), variant: rng.below(4) as u8 }
+}
+
+pub fn random_plan(rng: &mut Rng, p: &Params) -> Plan {
+    let n = rng.range_usize(p.min_threads, p.max_threads);
+    let profile = rng.below(3);
+    let short = rng.chance(1, 3);
+    let threads: Vec<Vec<MsgPlan>> = (0..n)
+        .map(|_| {
+            let k = if short { rng.range_usize(1, p.max_msgs.min(5)) } else { rng.range_usize(1, p.max_msgs) };
+            (0..k).map(|_| random_msg(rng, p, profile)).collect()
+        })
+        .collect();
+    let main_msgs = if rng.chance(1, 3) { (0..rng.range_usize(1, p.max_main_msgs)).map(|_| random_msg(rng, p, profile)).collect() } else { Vec::new() };
+    let mode = match rng.below(10) {
+        0..=2 => Mode::AfterJoin,
+        3..=4 => Mode::AfterSome(rng.range_usize(1, n - 1)),
+        _ => Mode::Concurrent((0..rng.usize_below(4)).map(|_| random_pause(rng, p)).collect()),
+    };
+    let collector = if rng.chance(1, 6) { Collector::Plain } else { Collector::Dedup };
+    let cloned_twice = (0..n).map(|_| rng.chance(1, 3)).collect();
+    Plan { threads, main_msgs, mode, collector, cloned_twice }
+}
+
+/// The message sender `t` sends as its `c`-th message.
+pub fn make_msg(t: usize, c: usize, mp: &MsgPlan) -> LogThreadMsg {
+    let text = format!("m:{t}:{c}");
+    match &mp.kind {
+        MKind::General | MKind::LogAt(_) => {
+            let level = match mp.variant % 3 {
+                0 => LogLevel::Debug,
+                1 => LogLevel::Error,
+                _ => LogLevel::Info,
+            };
+            let source = if mp.variant >= 2 { Some(format!("analysis{}", mp.variant)) } else { None };
+            let location = match mp.kind {
+                MKind::LogAt(a) => {
+                    let mut tid = Tid::new(format!("instr_{}_{}_{}", ADDRS[a], mp.variant, t));
+                    tid.address = ADDRS[a].to_string();
+                    Some(tid)
+                }
+                _ => None,
+            };
+            LogThreadMsg::Log(LogMessage { text, level, location, source })
+        }
+        MKind::Cwe(a, extra) => {
+            let addresses: Vec<String> = match extra {
+                0 => vec![ADDRS[*a].to_string()],
+                1 => vec![ADDRS[*a].to_string(), ADDRS[(*a + 1) % 3].to_string()],
+                _ => vec![ADDRS[*a].to_string(), "0040ffff".to_string(), ADDRS[(*a + 2) % 3].to_string()],
+            };
+            let name = ["CWE476", "CWE119", "CWE416", "CWE476"][mp.variant as usize % 4];
+            LogThreadMsg::Cwe(CweWarning::new(name, "0.1", text).addresses(addresses).tids(vec![format!("instr_{}_{}", ADDRS[*a], mp.variant)]))
+        }
+    }
+}
+
+fn do_pause(p: &Pause) {
+    match p {
+        Pause::None => (),
+        Pause::Yield(k) => {
+            for _ in 0..*k {
+                std::thread::yield_now();
+            }
+        }
+        Pause::Spin(n) => {
+            for _ in 0..*n {
+                std::hint::spin_loop();
+            }
+        }
+        Pause::SleepUs(us) => std::thread::sleep(Duration::from_micros(*us as u64)),
+    }
+}
+
+// ---------------------------------------------------------------------------
+// Execution (records the history at the client boundary)
+
+#[derive(Clone, Debug, PartialEq, Eq, Serialize, Deserialize)]
+pub struct Rec {
+    pub thread: usize,
+    pub ctr: usize,
+    pub start: u64,
+    pub end: u64,
+    pub ok: bool,
+}
+
+#[derive(Clone, Debug, Serialize, Deserialize)]
+pub struct History {
+    pub recs: Vec<Rec>,
+    /// stamp taken immediately before `collect()` is called
+    pub c_req: u64,
+    /// stamp taken immediately after `collect()` returned
+    pub c_ret: u64,
+    pub logs: Vec<LogMessage>,
+    pub cwes: Vec<CweWarning>,
+}
+
+fn plain_collector(receiver: crossbeam_channel::Receiver<LogThreadMsg>) -> (Vec<LogMessage>, Vec<CweWarning>) {
+    let mut logs = Vec::new();
+    let mut cwes = Vec::new();
+    while let Ok(msg) = receiver.recv() {
+        match msg {
+            LogThreadMsg::Log(l) => logs.push(l),
+            LogThreadMsg::Cwe(c) => cwes.push(c),
+            LogThreadMsg::Terminate => break,
+        }
+    }
+    (logs, cwes)
+}
+
+fn send_all(t: usize, msgs: &[MsgPlan], tx: &crossbeam_channel::Sender<LogThreadMsg>, clock: &AtomicU64) -> Vec<Rec> {
+    let mut recs = Vec::with_capacity(msgs.len());
+    for (c, mp) in msgs.iter().enumerate() {
+        do_pause(&mp.pause);
+        let msg = make_msg(t, c, mp);
+        let start = clock.fetch_add(1, Ordering::SeqCst);
+        let ok = tx.send(msg).is_ok();
+        let end = clock.fetch_add(1, Ordering::SeqCst);
+        recs.push(Rec { thread: t, ctr: c, start, end, ok });
+    }
+    recs
+}
+
+type Job = Box<dyn FnOnce() + Send + 'static>;
+
+/// Persistent worker threads (one per sender slot + one for `collect()`), reused for all histories
+/// of a shard: creating and destroying ~8 threads per history dominated the run time (address-space
+/// operations of 16 concurrent shards serialise in the kernel). The collector thread of the
+/// `LogThread` under test is of course still spawned per history by `LogThread::spawn`.
+pub struct Pool {
+    workers: Vec<(Option<std::sync::mpsc::Sender<Job>>, Option<std::thread::JoinHandle<()>>)>,
+    /// set when a job hung: the threads are abandoned instead of joined
+    poisoned: bool,
+}
+
+impl Pool {
+    pub fn new(sender_slots: usize) -> Pool {
+        let workers = (0..sender_slots + 1)
+            .map(|_| {
+                let (tx, rx) = std::sync::mpsc::channel::<Job>();
+                let handle = std::thread::spawn(move || {
+                    while let Ok(job) = rx.recv() {
+                        job();
+                    }
+                });
+                (Some(tx), Some(handle))
+            })
+            .collect();
+        Pool { workers, poisoned: false }
+    }
+    fn slots(&self) -> usize {
+        self.workers.len() - 1
+    }
+    fn run(&self, slot: usize, job: Job) {
+        if let Some(tx) = &self.workers[slot].0 {
+            let _ = tx.send(job);
+        }
+    }
+}
+
+impl Drop for Pool {
+    fn drop(&mut self) {
+        for w in self.workers.iter_mut() {
+            w.0.take();
+        }
+        if !self.poisoned {
+            for w in self.workers.iter_mut() {
+                if let Some(h) = w.1.take() {
+                    let _ = h.join();
+                }
+            }
+        }
+    }
+}
+
+/// Execute a plan once. `Err` = collect() hung or panicked (message says which).
+pub fn execute(plan: &Arc<Plan>, pool: &mut Pool) -> Result<History, String> {
+    let n = plan.threads.len();
+    if n > pool.slots() || pool.poisoned {
+        *pool = Pool::new(n.max(pool.slots()));
+    }
+    let clock = Arc::new(AtomicU64::new(1));
+    let log_thread = match plan.collector {
+        Collector::Dedup => LogThread::spawn(LogThread::collect_and_deduplicate),
+        Collector::Plain => LogThread::spawn(plain_collector),
+    };
+    let barrier = Arc::new(Barrier::new(n + 1));
+    let timeout = if cfg!(miri) { Duration::from_secs(3600) } else { Duration::from_secs(30) };
+    let (res_tx, res_rx) = std::sync::mpsc::channel::<(usize, Vec<Rec>)>();
+    for i in 0..n {
+        let tx = {
+            let s = log_thread.get_msg_sender();
+            if plan.cloned_twice[i] {
+                s.clone()
+            } else {
+                s
+            }
+        };
+        let (plan, clock, barrier, res_tx) = (plan.clone(), clock.clone(), barrier.clone(), res_tx.clone());
+        pool.run(
+            i,
+            Box::new(move || {
+                barrier.wait();
+                let r = send_all(i, &plan.threads[i], &tx, &clock);
+                drop(tx);
+                let _ = res_tx.send((i, r));
+            }),
+        );
+    }
+    drop(res_tx);
+    barrier.wait();
+    let mut recs: Vec<Rec> = Vec::new();
+    let mut finished = vec![false; n];
+    // "join" sender i = wait until it reports that all its sends returned and its sender is dropped
+    let mut wait_for = |upto: usize, finished: &mut Vec<bool>, recs: &mut Vec<Rec>| -> Result<(), String> {
+        while !finished[..upto].iter().all(|f| *f) {
+            match res_rx.recv_timeout(timeout) {
+                Ok((i, r)) => {
+                    finished[i] = true;
+                    recs.extend(r);
+                }
+                Err(_) => return Err("sender-hang".to_string()),
+            }
+        }
+        Ok(())
+    };
+    let mut early: Result<(), String> = Ok(());
+    match &plan.mode {
+        Mode::AfterJoin => early = wait_for(n, &mut finished, &mut recs),
+        Mode::AfterSome(k) => early = wait_for((*k).min(n), &mut finished, &mut recs),
+        Mode::Concurrent(pauses) => {
+            for p in pauses {
+                do_pause(p);
+            }
+        }
+    }
+    if let Err(e) = early {
+        pool.poisoned = true;
+        return Err(e);
+    }
+    if !plan.main_msgs.is_empty() {
+        let tx = log_thread.get_msg_sender();
+        recs.extend(send_all(n, &plan.main_msgs, &tx, &clock));
+    }
+    // collect() on the helper thread so that a hang is observable
+    let (rtx, rrx) = std::sync::mpsc::channel();
+    let clock2 = clock.clone();
+    pool.run(
+        pool.slots(),
+        Box::new(move || {
+            let res = std::panic::catch_unwind(std::panic::AssertUnwindSafe(move || {
+                let c_req = clock2.fetch_add(1, Ordering::SeqCst);
+                let (logs, cwes) = log_thread.collect();
+                let c_ret = clock2.fetch_add(1, Ordering::SeqCst);
+                (c_req, c_ret, logs, cwes)
+            }));
+            let _ = rtx.send(res.map_err(|_| ()));
+        }),
+    );
+    let outcome = match rrx.recv_timeout(timeout) {
+        Ok(Ok(v)) => Ok(v),
+        Ok(Err(())) => Err("panic".to_string()),
+        Err(_) => {
+            pool.poisoned = true;
+            Err("hang".to_string())
+        }
+    };
+    if let Err(e) = wait_for(n, &mut finished, &mut recs) {
+        pool.poisoned = true;
+        return Err(e);
+    }
+    let (c_req, c_ret, logs, cwes) = outcome?;
+    recs.sort_by_key(|r| r.start);
+    Ok(History { recs, c_req, c_ret, logs, cwes })
+}
+
+// ---------------------------------------------------------------------------
+// Offline checker
+
+#[derive(Clone, Debug)]
+pub struct Finding {
+    pub signature: String,
+    pub detail: String,
+}
+
+fn parse_id(text: &str) -> Option<(usize, usize)> {
+    let mut it = text.split(':');
+    if it.next()? != "m" {
+        return None;
+    }
+    let t = it.next()?.parse().ok()?;
+    let c = it.next()?.parse().ok()?;
+    if it.next().is_some() {
+        return None;
+    }
+    Some((t, c))
+}
+
+fn msg_plan<'a>(plan: &'a Plan, t: usize, c: usize) -> Option<&'a MsgPlan> {
+    if t < plan.threads.len() {
+        plan.threads[t].get(c)
+    } else if t == plan.threads.len() {
+        plan.main_msgs.get(c)
+    } else {
+        None
+    }
+}
+
+/// What the checker extracted from the output (for coverage statistics).
+#[derive(Default, Debug)]
+pub struct Facts {
+    pub sent: usize,
+    pub returned: usize,
+    /// messages whose send had not completed when collect was requested
+    pub not_completed_at_request: usize,
+    /// returned although the send had not completed at the request
+    pub returned_racing: usize,
+    /// returned although the send *started* after the request
+    pub returned_started_after_request: usize,
+    /// sends that reported a disconnected channel
+    pub failed_sends: usize,
+    /// addressed messages overwritten by a later one
+    pub overwritten: usize,
+    /// sends that overlapped in time with the send of another thread
+    pub overlapping: usize,
+    /// sender indices of the returned logs, '|' , sender indices of the returned warnings
+    pub order_sig: Vec<u8>,
+    pub interleaved: bool,
+    /// addressed logs first (sorted by address), then address-less logs; warnings sorted by first address
+    pub documented_shape: bool,
+}
+
+/// Decide one recorded history. Pure function of (plan, history).
+pub fn check_history(plan: &Plan, h: &History) -> (Vec<Finding>, Facts) {
+    let mut out: Vec<Finding> = Vec::new();
+    let mut facts = Facts::default();
+    let mut fail = |sig: &str, detail: String| out.push(Finding { signature: sig.to_string(), detail });
+    let dedup = plan.collector == Collector::Dedup;
+    let recs: BTreeMap<(usize, usize), &Rec> = h.recs.iter().map(|r| ((r.thread, r.ctr), r)).collect();
+    facts.sent = recs.len();
+    facts.failed_sends = h.recs.iter().filter(|r| !r.ok).count();
+    facts.not_completed_at_request = h.recs.iter().filter(|r| r.end > h.c_req).count();
+    facts.overlapping = h.recs.iter().filter(|r| r.end != r.start + 1).count();
+
+    // ---- identify every returned message
+    // position in the respective output vector
+    let mut log_pos: BTreeMap<(usize, usize), usize> = BTreeMap::new();
+    let mut cwe_pos: BTreeMap<(usize, usize), usize> = BTreeMap::new();
+    let identify = |is_cwe: bool, pos: usize, text: &str, rendered: String, equal: &dyn Fn(&LogThreadMsg) -> bool, fail: &mut dyn FnMut(&str, String)| -> Option<(usize, usize)> {
+        let kind = if is_cwe { "warning" } else { "log" };
+        let id = match parse_id(text) {
+            Some(id) => id,
+            None => {
+                fail("phantom:unknown-message", format!("returned {kind} #{pos} `{rendered}` was never sent"));
+                return None;
+            }
+        };
+        let (mp, rec) = match (msg_plan(plan, id.0, id.1), recs.get(&id)) {
+            (Some(mp), Some(rec)) => (mp, rec),
+            _ => {
+                fail("phantom:unknown-message", format!("returned {kind} #{pos} `{rendered}` was never sent"));
+                return None;
+            }
+        };
+        let sent = make_msg(id.0, id.1, mp);
+        if !equal(&sent) {
+            fail("phantom:altered-message", format!("returned {kind} #{pos} `{rendered}` differs from the message sent as m:{}:{} = {sent:?}", id.0, id.1));
+            return None;
+        }
+        if !rec.ok {
+            fail("phantom:returned-after-failed-send", format!("m:{}:{} was returned although its send reported a disconnected channel", id.0, id.1));
+        }
+        if rec.start > h.c_ret {
+            fail("phantom:sent-after-collect-returned", format!("m:{}:{} was returned although its send started (stamp {}) after collect() had returned (stamp {})", id.0, id.1, rec.start, h.c_ret));
+        }
+        Some(id)
+    };
+    for (pos, l) in h.logs.iter().enumerate() {
+        let l2 = l.clone();
+        if let Some(id) = identify(false, pos, &l.text, format!("{l}"), &move |m| matches!(m, LogThreadMsg::Log(x) if *x == l2), &mut fail) {
+            if log_pos.insert(id, pos).is_some() {
+                fail("duplicate:log", format!("log m:{}:{} was returned twice", id.0, id.1));
+            }
+        }
+    }
+    for (pos, w) in h.cwes.iter().enumerate() {
+        let w2 = w.clone();
+        if let Some(id) = identify(true, pos, &w.description, format!("{w}"), &move |m| matches!(m, LogThreadMsg::Cwe(x) if *x == w2), &mut fail) {
+            if cwe_pos.insert(id, pos).is_some() {
+                fail("duplicate:warning", format!("warning m:{}:{} was returned twice", id.0, id.1));
+            }
+        }
+    }
+    facts.returned = log_pos.len() + cwe_pos.len();
+
+    // ---- classes of sent messages
+    // class key: None = must be delivered individually; Some((is_cwe, addr)) = deduplicated by address
+    let class_of = |mp: &MsgPlan| -> Option<(bool, usize)> {
+        if !dedup {
+            return None;
+        }
+        match mp.kind {
+            MKind::General => None,
+            MKind::LogAt(a) => Some((false, a)),
+            MKind::Cwe(a, _) => Some((true, a)),
+        }
+    };
+    let is_returned = |id: &(usize, usize)| log_pos.contains_key(id) || cwe_pos.contains_key(id);
+    let mut by_addr: BTreeMap<(bool, usize), Vec<&Rec>> = BTreeMap::new();
+    for r in &h.recs {
+        let mp = match msg_plan(plan, r.thread, r.ctr) {
+            Some(mp) => mp,
+            None => continue,
+        };
+        let id = (r.thread, r.ctr);
+        let completed = r.end < h.c_req;
+        if completed && !r.ok {
+            fail("delivery:send-failed-before-collect", format!("send of m:{}:{} completed (stamp {}) before collect was requested (stamp {}) but reported a disconnected channel", id.0, id.1, r.end, h.c_req));
+        }
+        if is_returned(&id) {
+            if !completed {
+                facts.returned_racing += 1;
+            }
+            if r.start > h.c_req {
+                facts.returned_started_after_request += 1;
+            }
+        }
+        match class_of(mp) {
+            None => {
+                if completed && r.ok && !is_returned(&id) {
+                    let what = match mp.kind {
+                        MKind::General => "address-less log",
+                        MKind::LogAt(_) => "log (plain collector)",
+                        MKind::Cwe(..) => "warning (plain collector)",
+                    };
+                    fail(
+                        "delivery:lost-message",
+                        format!("{what} m:{}:{} was sent completely (end stamp {}) before collect was requested (stamp {}) but is not among the returned messages", id.0, id.1, r.end, h.c_req),
+                    );
+                }
+            }
+            Some(key) => by_addr.entry(key).or_default().push(r),
+        }
+    }
+
+    // ---- order of individually delivered messages (real-time order)
+    let order_check = |pos: &BTreeMap<(usize, usize), usize>, what: &str, fail: &mut dyn FnMut(&str, String)| {
+        let items: Vec<(&Rec, usize)> = pos
+            .iter()
+            .filter_map(|(id, p)| {
+                let r = recs.get(id)?;
+                let mp = msg_plan(plan, id.0, id.1)?;
+                if class_of(mp).is_none() {
+                    Some((*r, *p))
+                } else {
+                    None
+                }
+            })
+            .collect();
+        for (r1, p1) in &items {
+            for (r2, p2) in &items {
+                if r1.end < r2.start && p1 > p2 {
+                    let class = if r1.thread == r2.thread { "same-sender" } else { "real-time" };
+                    fail(
+                        &format!("order:{what}:{class}"),
+                        format!(
+                            "{what} m:{}:{} (send finished at stamp {}) precedes m:{}:{} (send started at stamp {}) but is returned at position {} after position {}",
+                            r1.thread, r1.ctr, r1.end, r2.thread, r2.ctr, r2.start, p1, p2
+                        ),
+                    );
+                    return;
+                }
+            }
+        }
+    };
+    order_check(&log_pos, "log", &mut fail);
+    if !dedup {
+        order_check(&cwe_pos, "warning", &mut fail);
+    }
+
+    // ---- deduplicated classes
+    for ((is_cwe, a), members) in &by_addr {
+        let kind = if *is_cwe { "warning" } else { "log" };
+        let kept: Vec<&&Rec> = members.iter().filter(|r| is_returned(&(r.thread, r.ctr))).collect();
+        let completed: Vec<&&Rec> = members.iter().filter(|r| r.end < h.c_req && r.ok).collect();
+        if kept.len() > 1 {
+            fail(
+                &format!("dedup:{kind}:several-kept"),
+                format!("{} {kind}s for address {} were returned ({}), documented: only the last one is kept", kept.len(), ADDRS[*a], kept.iter().map(|r| format!("m:{}:{}", r.thread, r.ctr)).collect::<Vec<_>>().join(", ")),
+            );
+            continue;
+        }
+        if kept.is_empty() {
+            if let Some(r) = completed.first() {
+                fail(
+                    &format!("dedup:{kind}:none-kept"),
+                    format!("no {kind} for address {} was returned although e.g. m:{}:{} was sent completely (end stamp {}) before the collect request (stamp {})", ADDRS[*a], r.thread, r.ctr, r.end, h.c_req),
+                );
+            }
+            continue;
+        }
+        let k = kept[0];
+        facts.overwritten += members.len() - 1;
+        if let Some(later) = completed.iter().find(|m| k.end < m.start) {
+            fail(
+                &format!("dedup:{kind}:not-the-last"),
+                format!(
+                    "for address {} the {kind} m:{}:{} (send finished at stamp {}) was kept, but m:{}:{} was sent after it (start stamp {}) and completely before the collect request (end stamp {} < {}); the last one must be kept",
+                    ADDRS[*a], k.thread, k.ctr, k.end, later.thread, later.ctr, later.start, later.end, h.c_req
+                ),
+            );
+        }
+    }
+
+    // ---- observations only: output order signature and shape
+    let mut sig: Vec<u8> = Vec::new();
+    let mut general_threads: Vec<usize> = Vec::new();
+    for l in &h.logs {
+        if let Some((t, _)) = parse_id(&l.text) {
+            sig.push(t as u8);
+            if l.location.is_none() {
+                general_threads.push(t);
+            }
+        }
+    }
+    sig.push(0xff);
+    for w in &h.cwes {
+        if let Some((t, _)) = parse_id(&w.description) {
+            sig.push(t as u8);
+        }
+    }
+    facts.order_sig = sig;
+    facts.interleaved = general_threads.windows(2).any(|w| w[0] > w[1]) || {
+        // a sender's block is split by another sender
+        let mut seen: Vec<usize> = Vec::new();
+        let mut split = false;
+        for w in general_threads.windows(2) {
+            if w[0] != w[1] {
+                if seen.contains(&w[1]) {
+                    split = true;
+                }
+                seen.push(w[0]);
+            }
+        }
+        split
+    };
+    if dedup {
+        let first_general = h.logs.iter().position(|l| l.location.is_none()).unwrap_or(h.logs.len());
+        let addressed: Vec<&str> = h.logs[..first_general].iter().filter_map(|l| l.location.as_ref().map(|t| t.address.as_str())).collect();
+        let tail_ok = h.logs[first_general..].iter().all(|l| l.location.is_none());
+        let sorted = addressed.windows(2).all(|w| w[0] < w[1]);
+        let cwe_sorted = h.cwes.windows(2).all(|w| w[0].addresses.first() < w[1].addresses.first());
+        facts.documented_shape = tail_ok && sorted && cwe_sorted;
+    } else {
+        facts.documented_shape = true;
+    }
+    (out, facts)
+}
+
+// ---------------------------------------------------------------------------
+// Driving
+
+fn plan_hash(plan: &Plan) -> u64 {
+    crate::prng::hash_str(&serde_json::to_string(plan).unwrap_or_default())
+}
+
+fn stamp_interleaving(plan: &Plan, h: &History) -> u64 {
+    // sequence of sender indices of all stamps in clock order, with the collect request/return
+    let mut ev: Vec<(u64, u8)> = Vec::new();
+    for r in &h.recs {
+        ev.push((r.start, r.thread as u8));
+        ev.push((r.end, r.thread as u8 | 0x40));
+    }
+    ev.push((h.c_req, 0xfe));
+    ev.push((h.c_ret, 0xff));
+    ev.sort();
+    let mut x = plan.threads.len() as u64;
+    for (_, t) in ev {
+        x = mix(x, t as u64);
+    }
+    x
+}
+
+pub struct Shared {
+    pub orders: Mutex<HashSet<u64>>,
+    pub interleavings: Mutex<HashSet<u64>>,
+}
+
+impl Shared {
+    pub fn new() -> Shared {
+        Shared { orders: Mutex::new(HashSet::new()), interleavings: Mutex::new(HashSet::new()) }
+    }
+}
+
+impl Default for Shared {
+    fn default() -> Self {
+        Shared::new()
+    }
+}
+
+fn history_json(h: &History) -> Value {
+    json!({
+        "stamps": h.recs.iter().map(|r| json!([format!("m:{}:{}", r.thread, r.ctr), r.start, r.end, r.ok])).collect::<Vec<_>>(),
+        "collect_requested": h.c_req,
+        "collect_returned": h.c_ret,
+        "returned_logs": h.logs.iter().map(|l| match &l.location { Some(t) => format!("{}@{}", l.text, t.address), None => l.text.clone() }).collect::<Vec<_>>(),
+        "returned_warnings": h.cwes.iter().map(|w| format!("{}@{:?}", w.description, w.addresses)).collect::<Vec<_>>(),
+    })
+}
+
+/// Execute `plan` once and judge it. Returns the output fingerprint (None if no output).
+pub fn run_and_check(plan: &Arc<Plan>, pool: &mut Pool, rep: &mut Report, shared: &Shared) -> Option<u64> {
+    rep.eval();
+    let n_msgs: usize = plan.threads.iter().map(|t| t.len()).sum::<usize>() + plan.main_msgs.len();
+    let case = |h: Option<&History>| json!({"kind": "history", "plan": &**plan, "recorded": h.map(history_json)});
+    let coll = match plan.collector {
+        Collector::Dedup => "collect_and_deduplicate",
+        Collector::Plain => "plain",
+    };
+    let h = match guard(|| execute(plan, pool)) {
+        Ok(Ok(h)) => h,
+        Ok(Err(what)) => {
+            rep.violation(
+                format!("collect:{what}:{coll}"),
+                None,
+                format!("LogThread::collect() did not deliver a result ({what}) for a history of {n_msgs} messages; expected the collected messages"),
+                case(None),
+                n_msgs as u64,
+            );
+            return None;
+        }
+        Err(p) => {
+            rep.violation(format!("collect:panic:{}", panic_site(&p)), None, format!("executing the history panicked: {p}"), case(None), n_msgs as u64);
+            return None;
+        }
+    };
+    let (findings, facts) = check_history(plan, &h);
+    if !findings.is_empty() {
+        rep.obs("histories:violating");
+    }
+    for f in findings {
+        rep.violation(format!("{}:{coll}", f.signature), None, f.detail, case(Some(&h)), n_msgs as u64);
+    }
+    // ---- coverage
+    rep.obs_n("histories", 1);
+    rep.obs_n("messages:sent", facts.sent as u64);
+    rep.obs_n("messages:returned", facts.returned as u64);
+    rep.obs_n("messages:not-kept-by-deduplication", facts.overwritten as u64);
+    rep.obs_n("messages:send-not-completed-at-collect-request", facts.not_completed_at_request as u64);
+    rep.obs_n("messages:returned-though-send-raced-with-request", facts.returned_racing as u64);
+    rep.obs_n("messages:returned-though-send-started-after-request", facts.returned_started_after_request as u64);
+    rep.obs_n("messages:send-reported-disconnected", facts.failed_sends as u64);
+    rep.obs_n("messages:send-overlapped-another-send-or-the-request", facts.overlapping as u64);
+    rep.obs(&format!("collector:{coll}"));
+    rep.obs(match &plan.mode {
+        Mode::AfterJoin => "mode:collect-after-all-joined",
+        Mode::AfterSome(_) => "mode:collect-after-some-joined",
+        Mode::Concurrent(_) => "mode:collect-concurrent",
+    });
+    rep.obs(&format!("senders:{}", plan.threads.len()));
+    if facts.not_completed_at_request > 0 {
+        rep.obs("history:collect-raced-with-sends");
+    }
+    if facts.interleaved {
+        rep.obs("history:address-less-logs-interleaved");
+    }
+    if plan.collector == Collector::Dedup {
+        rep.obs(if facts.documented_shape { "output-order:addressed-by-address-then-address-less" } else { "output-order:other" });
+    }
+    let mut o = 0x25u64;
+    for b in &facts.order_sig {
+        o = mix(o, *b as u64);
+    }
+    let mut full = o;
+    for l in &h.logs {
+        full = mix(full, crate::prng::hash_str(&l.text));
+    }
+    for w in &h.cwes {
+        full = mix(full, crate::prng::hash_str(&w.description));
+    }
+    shared.orders.lock().unwrap().insert(o);
+    shared.interleavings.lock().unwrap().insert(stamp_interleaving(plan, &h));
+    if facts.returned >= 2 && (facts.not_completed_at_request > 0 || facts.interleaved) {
+        rep.nontrivial(mix(plan_hash(plan), full));
+    }
+    if rep.wants_sample() && facts.interleaved && facts.not_completed_at_request > 0 && n_msgs <= 12 && facts.overwritten > 0 {
+        rep.sample(json!({"plan": &**plan, "recorded": history_json(&h), "verdict": "held"}));
+    }
+    Some(full)
+}
+
+fn run(cfg: &Cfg) -> Report {
+    let shared = Shared::new();
+    let shards = 128usize;
+    let plans_per_shard = cfg.tier.pick(60usize, 1000usize);
+    // Miri first (thorough only), concurrently with the native histories
+    let miri = if cfg.tier == Tier::Thorough { Some(MiriRun::start(cfg, 3, cfg.seed, 0, 64)) } else { None };
+    let mut rep = par_shards(cfg, "c25", shards, |_idx, rng, rep| {
+        let mut pool = Pool::new(NATIVE.max_threads);
+        for _ in 0..plans_per_shard {
+            let plan = Arc::new(random_plan(rng, &NATIVE));
+            let a = run_and_check(&plan, &mut pool, rep, &shared);
+            let b = run_and_check(&plan, &mut pool, rep, &shared);
+            if let (Some(a), Some(b)) = (a, b) {
+                rep.obs(if a == b { "plan:same-output-in-both-executions" } else { "plan:different-output-in-the-two-executions" });
+            }
+        }
+    });
+    let get = |rep: &Report, k: &str| rep.observed.get(k).copied().unwrap_or(0);
+    rep.extra.insert("histories".into(), json!(get(&rep, "histories")));
+    rep.extra.insert("messages_sent".into(), json!(get(&rep, "messages:sent")));
+    rep.extra.insert("messages_returned".into(), json!(get(&rep, "messages:returned")));
+    rep.extra.insert("distinct_output_orders".into(), json!(shared.orders.lock().unwrap().len()));
+    rep.extra.insert("distinct_stamp_interleavings".into(), json!(shared.interleavings.lock().unwrap().len()));
+    match miri {
+        Some(m) => m.finish(cfg, &mut rep),
+        None => {
+            rep.extra.insert("miri".into(), json!("not run in the quick tier"));
+        }
+    }
+    rep
+}
+
+fn replay(cfg: &Cfg, case: &Value) -> Report {
+    let mut rep = Report::new();
+    match case["kind"].as_str() {
+        Some("history") => match serde_json::from_value::<Plan>(case["plan"].clone()) {
+            Ok(plan) => {
+                if plan.threads.is_empty() || plan.cloned_twice.len() != plan.threads.len() || plan.threads.len() > 64 {
+                    rep.note("malformed plan in replay case");
+                    return rep;
+                }
+                // schedules cannot be pinned: re-execute the plan many times, stop at the first violation
+                let shared = Shared::new();
+                let plan = Arc::new(plan);
+                let mut pool = Pool::new(plan.threads.len());
+                let n = 3000;
+                for i in 0..n {
+                    run_and_check(&plan, &mut pool, &mut rep, &shared);
+                    if !rep.violations.is_empty() {
+                        rep.note(format!("violation reproduced in re-execution {} of the plan", i + 1));
+                        break;
+                    }
+                }
+                if rep.violations.is_empty() {
+                    rep.note(format!("{n} re-executions of the stored plan ({} distinct output orders) held; the recorded schedule itself cannot be pinned", shared.orders.lock().unwrap().len()));
+                }
+            }
+            Err(e) => rep.note(format!("cannot parse replay plan: {e}")),
+        },
+        Some("miri") => {
+            let histories = case["histories"].as_u64().unwrap_or(3);
+            let seed = case["seed"].as_u64().unwrap_or(1);
+            let lo = case["miri_seeds"][0].as_u64().unwrap_or(0);
+            let hi = case["miri_seeds"][1].as_u64().unwrap_or(8);
+            MiriRun::start(cfg, histories, seed, lo, hi).finish(cfg, &mut rep);
+        }
+        _ => rep.note("unknown replay case kind"),
+    }
+    rep
+}
+
+// ---------------------------------------------------------------------------
+// logmon entry point (small parameters, std threads only: runs under Miri)
+
+/// `logmon c25 <histories> <seed>`; returns the process exit code.
+pub fn logmon_main(args: &[String]) -> i32 {
+    let histories: u64 = args.first().and_then(|s| s.parse().ok()).unwrap_or(3);
+    let seed: u64 = args.get(1).and_then(|s| s.parse().ok()).unwrap_or(1);
+    // small parameters by default (Miri is ~10^4 times slower); LOGMON_PARAMS=native selects the sizes of the native monitor
+    let params = if std::env::var("LOGMON_PARAMS").as_deref() == Ok("native") { NATIVE } else { MIRI };
+    let shared = Shared::new();
+    let mut rep = Report::new();
+    let mut rng = Rng::derive(seed, "logmon-c25", 0);
+    let mut pool = Pool::new(params.max_threads);
+    for _ in 0..histories {
+        let plan = Arc::new(random_plan(&mut rng, &params));
+        run_and_check(&plan, &mut pool, &mut rep, &shared);
+    }
+    drop(pool);
+    let get = |k: &str| rep.observed.get(k).copied().unwrap_or(0);
+    for (sig, v) in &rep.violations {
+        println!("VIOLATION property=C25 signature={sig} detail={} case={}", v.detail, v.case);
+    }
+    println!(
+        "logmon c25: histories={} messages_sent={} messages_returned={} raced={} distinct_output_orders={} violations={}",
+        get("histories"),
+        get("messages:sent"),
+        get("messages:returned"),
+        get("history:collect-raced-with-sends"),
+        shared.orders.lock().unwrap().len(),
+        rep.violations.len()
+    );
+    if rep.violations.is_empty() {
+        0
+    } else {
+        1
+    }
+}
+
+// ---------------------------------------------------------------------------
+// Miri subprocess (thorough tier)
+
+pub struct MiriRun {
+    child: Option<std::process::Child>,
+    out_path: std::path::PathBuf,
+    histories: u64,
+    seed: u64,
+    seeds: (u64, u64),
+    started: std::time::Instant,
+    started_sys: std::time::SystemTime,
+    error: Option<String>,
+}
+
+impl MiriRun {
+    pub fn start(cfg: &Cfg, histories: u64, seed: u64, lo: u64, hi: u64) -> MiriRun {
+        use std::os::unix::process::CommandExt;
+        let target = cfg.harness_dir.join("target-miri");
+        let _ = std::fs::create_dir_all(&target);
+        let out_path = target.join(format!("logmon-c25-{}-{}.out", std::process::id(), seed));
+        let mut run = MiriRun { child: None, out_path: out_path.clone(), histories, seed, seeds: (lo, hi), started: std::time::Instant::now(), started_sys: std::time::SystemTime::now(), error: None };
+        let file = match std::fs::File::create(&out_path) {
+            Ok(f) => f,
+            Err(e) => {
+                run.error = Some(format!("cannot create {out_path:?}: {e}"));
+                return run;
+            }
+        };
+        let file2 = match file.try_clone() {
+            Ok(f) => f,
+            Err(e) => {
+                run.error = Some(format!("cannot clone output handle: {e}"));
+                return run;
+            }
+        };
+        let mut cmd = std::process::Command::new("cargo");
+        cmd.current_dir(&cfg.harness_dir)
+            .args(["+nightly", "miri", "run", "--offline", "--target-dir", "target-miri", "--bin", "logmon", "--", "c25"])
+            .arg(histories.to_string())
+            .arg(seed.to_string())
+            .env("MIRIFLAGS", format!("-Zmiri-disable-isolation -Zmiri-ignore-leaks -Zmiri-many-seeds={lo}..{hi}"))
+            .env("RUST_BACKTRACE", "0")
+            .env("RUST_LIB_BACKTRACE", "0")
+            .stdin(std::process::Stdio::null())
+            .stdout(std::process::Stdio::from(file))
+            .stderr(std::process::Stdio::from(file2))
+            .process_group(0);
+        match cmd.spawn() {
+            Ok(c) => run.child = Some(c),
+            Err(e) => run.error = Some(format!("cannot start cargo miri: {e}")),
+        }
+        run
+    }
+
+    /// Wait (generous timeout), classify the output and record it in `rep`.
+    pub fn finish(mut self, cfg: &Cfg, rep: &mut Report) {
+        let limit = Duration::from_secs(if cfg.tier == Tier::Thorough { 780 } else { 600 });
+        let mut status: Option<std::process::ExitStatus> = None;
+        let mut timed_out = false;
+        if let Some(child) = self.child.as_mut() {
+            loop {
+                match child.try_wait() {
+                    Ok(Some(s)) => {
+                        status = Some(s);
+                        break;
+                    }
+                    Ok(None) => {
+                        if self.started.elapsed() > limit {
+                            timed_out = true;
+                            let pid = child.id();
+                            let _ = std::process::Command::new("kill").args(["-KILL", &format!("-{pid}")]).status();
+                            let _ = child.kill();
+                            let _ = child.wait();
+                            break;
+                        }
+                        std::thread::sleep(Duration::from_millis(200));
+                    }
+                    Err(e) => {
+                        self.error = Some(format!("waiting for cargo miri failed: {e}"));
+                        break;
+                    }
+                }
+            }
+        }
+        let text = std::fs::read_to_string(&self.out_path).unwrap_or_default();
+        // duration of the Miri run itself = last write to its output file (we may have waited for it much later)
+        let wall = std::fs::metadata(&self.out_path)
+            .and_then(|m| m.modified())
+            .ok()
+            .and_then(|t| t.duration_since(self.started_sys).ok())
+            .map(|d| d.as_secs_f64())
+            .unwrap_or_else(|| self.started.elapsed().as_secs_f64());
+        let _ = std::fs::remove_file(&self.out_path);
+        let case = json!({"kind": "miri", "histories": self.histories, "seed": self.seed, "miri_seeds": [self.seeds.0, self.seeds.1]});
+        let tail = |n: usize| -> String {
+            let lines: Vec<&str> = text.lines().collect();
+            lines[lines.len().saturating_sub(n)..].join("\n")
+        };
+        let ok_runs = text.lines().filter(|l| l.starts_with("logmon c25:") && l.ends_with("violations=0")).count();
+        let mut summary = json!({"miri_seeds": [self.seeds.0, self.seeds.1], "histories_per_seed": self.histories, "seed": self.seed, "clean_runs": ok_runs, "wall_s": (wall * 10.0).round() / 10.0});
+        let mut verdict = "clean";
+        // --- verdict lines
+        let mut found = false;
+        for l in text.lines() {
+            let t = l.trim();
+            if let Some(rest) = t.strip_prefix("VIOLATION property=C25 signature=") {
+                let sig = rest.split(" detail=").next().unwrap_or("history");
+                rep.violation(format!("miri:history:{sig}"), None, format!("under Miri: {}", rest.chars().take(1500).collect::<String>()), case.clone(), 5);
+                found = true;
+            } else if t.starts_with("error: Undefined Behavior") {
+                let what = t.trim_start_matches("error: Undefined Behavior:").trim();
+                let class = if what.contains("Data race") { "data-race".to_string() } else { what.split(|c: char| !c.is_alphanumeric() && c != ' ').next().unwrap_or("ub").trim().replace(' ', "-").chars().take(40).collect() };
+                rep.violation(format!("miri:ub:{class}"), None, format!("Miri reports undefined behaviour while running C25 histories: {t}\n{}", tail(40)), case.clone(), 1);
+                found = true;
+            } else if t.starts_with("error: deadlock") || t.starts_with("error: the evaluated program deadlocked") {
+                rep.violation("miri:deadlock", None, format!("Miri reports a deadlock while running C25 histories: {t}\n{}", tail(40)), case.clone(), 2);
+                found = true;
+            }
+        }
+        if found {
+            verdict = "violation";
+        } else if let Some(e) = &self.error {
+            rep.inconclusive("miri:unavailable");
+            rep.note(format!("Miri run not possible: {e}"));
+            verdict = "unavailable";
+        } else if timed_out {
+            rep.inconclusive("miri:timeout");
+            rep.note(format!("Miri run exceeded {} s and was killed ({} clean seed runs before that)", limit.as_secs(), ok_runs));
+            verdict = "timeout";
+        } else if !status.map(|s| s.success()).unwrap_or(false) {
+            let reason = if text.contains("unsupported operation") {
+                "miri:unsupported-operation"
+            } else if text.contains("could not compile") || text.contains("error[E") {
+                "miri:build-failed"
+            } else if text.contains("is not installed") || text.contains("no such command") || text.contains("not installed") {
+                "miri:unavailable"
+            } else {
+                "miri:failed-without-diagnosis"
+            };
+            rep.inconclusive(reason);
+            rep.note(format!("Miri run ended with {status:?} ({reason}); last output:\n{}", tail(15)));
+            verdict = "inconclusive";
+        } else {
+            rep.evals(ok_runs as u64 * self.histories);
+            rep.obs_n("miri:clean-seed-runs", ok_runs as u64);
+        }
+        summary["verdict"] = json!(verdict);
+        rep.extra.insert("miri".into(), summary);
     }
 }
